@@ -1,4 +1,4 @@
-(* C05 — Mutex: no lost wake-up (history half).
+(* C05 — Mutex: no lost wake-up. History half first, schedule half below.
    For every operation history shorter than 2^61 operations (lock / lock_arc futures polled with any
    of 4 wakers each, spuriously, in any order; every outcome of the starvation clock through the oracle
    stream; cancellation of a future at every point of its life — unpolled, pending, starved, notified
@@ -9,6 +9,7 @@
    statement also says the most recent waker is the one that gets called. *)
 From AL Require Import Base Api Mutex MutexApi MutexInv MutexLive.
 From AL.Tie Require Tie_Mutex.
+From AL.Sched Require MutexEvSched MutexEvInv MutexEvOrd.
 
 Theorem C05_hist : forall ops : list mop, N.of_nat (length ops) < LIVE_BOUND ->
   let x := mrun ops in
@@ -53,7 +54,46 @@ Proof.
     + split; [eexists; repeat split; reflexivity|]. split; [eexists; split; reflexivity | reflexivity].
 Qed.
 
+(* ---------- schedule half: every interleaving of atomic actions ---------- *)
+(* The micro-step machine of Sched/MutexEvSched.v cuts every poll of a lock future (fast path, hot loop, the switch
+   to the fair protocol, fair loop, take_mutex), every guard drop and every drop of a pending future at each atomic
+   action on the state word and each critical section of lock_ops; any number of futures, unlocking and barging
+   threads; polls start at any time; the starvation clock answers anything. [gen_mutex_bt] says which machine the
+   source is (read from Gen/Sites.v): with or without the repair of finding F6.
+   For EVERY schedule: in a state in which the mutex is unlocked, no thread is inside a poll, a drop or between its
+   fetch_sub and its notify, and every future whose waker was called has been polled again, no polled future waits. *)
+Theorem C05_sched : forall (sched : list MutexEvSched.act) (nfuts : nat),
+  MutexEvSched.lostb (MutexEvSched.run MutexEvSched.gen_mutex_bt nfuts sched) = false.
+Proof. rewrite MutexEvOrd.mutex_bt_premise. exact MutexEvInv.mutex_sched_no_lost_wakeup. Qed.
+
+(* the same for states that are not at rest: unlocked, and a future waits on an entry that is not notified (other
+   than a future about to run the compare_exchange that follows its listen()) => a thread owes a notify, an entry is
+   notified, or a future is inside a poll at a point from which it will take the lock or call notify(1) *)
+Theorem C05_sched_inflight : forall (sched : list MutexEvSched.act) (nfuts : nat),
+  let s := MutexEvSched.run MutexEvSched.gen_mutex_bt nfuts sched in
+  MutexEvSched.g_w s mod 2 = 0 -> MutexEvInv.needy s = true -> MutexEvInv.inflight s = true.
+Proof. rewrite MutexEvOrd.mutex_bt_premise. exact MutexEvInv.mutex_sched_inflight. Qed.
+
+(* the invariants behind it (ownership of the entries, word = lock bit + 2 * starved operations, in-flight) *)
+Theorem C05_sched_invariants : forall (sched : list MutexEvSched.act) (nfuts : nat),
+  let s := MutexEvSched.run MutexEvSched.gen_mutex_bt nfuts sched in
+  MutexEvInv.Own s /\ MutexEvInv.Winv s /\ MutexEvInv.Tinv s.
+Proof. rewrite MutexEvOrd.mutex_bt_premise. exact MutexEvInv.run_inv. Qed.
+
+(* the statement has teeth: the machine WITHOUT the listener drops (the code before fix a3c1bed) loses a wake-up on
+   the schedule of finding F6; with them the same schedule wakes the second waiter; the fair protocol is reachable *)
+Theorem C05_sched_prefix_refuted : MutexEvSched.lostb (MutexEvSched.run false 2 (MutexEvSched.f6_schedule false)) = true.
+Proof. exact MutexEvInv.mutex_sched_prefix_refuted. Qed.
+Example C05_sched_nonvacuous :
+  let s := MutexEvSched.run true 2 (MutexEvSched.f6_schedule true) in
+  MutexEvSched.g_w s = 0 /\ nth_error (MutexEvSched.g_futs s) 1 = Some (MutexEvSched.mkF MutexEvSched.PParked (Some 1%nat) true false).
+Proof. exact MutexEvInv.mutex_sched_f6_repaired. Qed.
+
 Print Assumptions C05_hist.
 Print Assumptions C05_invariant.
 Print Assumptions C05_no_error.
 Print Assumptions C05_idle_event.
+Print Assumptions C05_sched.
+Print Assumptions C05_sched_inflight.
+Print Assumptions C05_sched_invariants.
+Print Assumptions C05_sched_prefix_refuted.
